@@ -30,7 +30,13 @@ class Unsupported(Exception):
 class Ctx:
     cur = None
 
-    def __init__(self, timeout_ms=20000, max_paths=20000):
+    def __init__(self, timeout_ms=20000, max_paths=20000, free_selectors=False):
+        # free_selectors: branches on plain boolean constants are independent
+        # selectors (never constrained by assumptions): both sides are feasible
+        # by construction, so no query is issued and the decision is kept
+        # outside the solver (finite enumeration steered by the exploration)
+        self.free_selectors = free_selectors
+        self.selector_forks = 0
         self.solver = z3.Solver()
         self.solver.set('timeout', timeout_ms)
         self.todo = [[]]
@@ -62,6 +68,20 @@ class Ctx:
         if cond is True or cond is False:
             return cond
         i = len(self.taken)
+        if self.free_selectors and z3.is_const(cond) and \
+                cond.decl().kind() == z3.Z3_OP_UNINTERPRETED:
+            key = cond.decl().name()
+            if key in self.decided:
+                return self.decided[key]
+            if i < len(self.prefix):
+                d = self.prefix[i]
+            else:
+                self.todo.append(self.taken + [False])
+                self.selector_forks += 1
+                d = True
+            self.taken.append(d)
+            self.decided[key] = d
+            return d
         if i < len(self.prefix):
             d = self.prefix[i]
         else:
@@ -95,6 +115,7 @@ class Ctx:
                 break
             self.prefix = self.todo.pop()
             self.taken = []
+            self.decided = {}
             self.solver.push()
             for a in assumptions:
                 self.solver.add(lift_bool(a))
